@@ -78,6 +78,25 @@ def _check(which, ser, axis_sel, keep_positions):
     return _content(sliced) == _content(ref)
 
 
+# scipy memoises _sputils.upcast in a module-level dict keyed by hash(args); under CrossHair that hash is a proxy value, the
+# dict fills with symbolic keys during the first iterations and later iterations take different paths (NotDeterministic).
+# The memo is an optimisation only: switch it off for the analysis.
+class _NoMemo(dict):
+    def get(self, k, d=None):
+        return d
+
+    def __setitem__(self, k, v):
+        pass
+
+
+try:
+    import scipy.sparse._sputils as _su
+    if isinstance(getattr(_su, '_upcast_memo', None), dict):
+        _su._upcast_memo = _NoMemo()
+except Exception:       # noqa
+    pass
+
+
 def slicer_small(ser: int, axis_sel: int, mask: int) -> bool:
     """
     require: 0 <= ser < 6 and 0 <= axis_sel < 2 and 1 <= mask < 16
@@ -97,10 +116,7 @@ def slicer_json_literals(ser: int, axis_sel: int, mask: int) -> bool:
     keep = [k for k in range(n) if (mask >> k) & 1]
     if not keep:
         return True
-    try:
-        return _check(3, ser, axis_sel, keep)
-    except Exception:       # noqa
-        return False
+    return _check(3, ser, axis_sel, keep)
 
 
 def slicer_awkward_text(axis_sel: int, mask: int) -> bool:
@@ -108,10 +124,7 @@ def slicer_awkward_text(axis_sel: int, mask: int) -> bool:
     require: 0 <= axis_sel < 2 and 1 <= mask < 8
     """
     keep = [k for k in range(3) if (mask >> k) & 1]
-    try:
-        return _check(2, 0, axis_sel, keep)
-    except Exception:       # noqa
-        return False
+    return _check(2, 0, axis_sel, keep)
 
 
 def slicer_big(ser: int, axis_sel: int, p1: int, p2: int, p3: int) -> bool:
